@@ -4,6 +4,7 @@ package websocket
 
 import (
 	"bufio"
+	"io"
 	"math"
 )
 
@@ -33,14 +34,20 @@ type vfStepEnv struct {
 
 // vfStepSetup builds the pre-state. P is the number of symbolic bytes
 // available after the 2+8 header/extended-length bytes.
-func vfStepSetup(P int, symbolicLimit bool) *vfStepEnv {
+func vfStepSetup(P int, symbolicLimit bool, tier int) *vfStepEnv {
 	vfInit()
 	vfClockMaxStep(int64(writeWait) / 4)
 	e := &vfStepEnv{}
 	e.isServer = vfChoose(2) == 1
 	e.pmce = vfChoose(2) == 1
 	R := 125
-	e.k = vfPick([]int{0, 3, R - 1})
+	chunkOne := false
+	if tier >= 1 {
+		e.k = vfPick([]int{0, 3, R - 1})
+		chunkOne = vfChoose(2) == 1
+	} else if vfChoose(2) == 1 {
+		e.k, chunkOne = 3, true
+	}
 	stream := make([]byte, 0, e.k+10+P)
 	for i := 0; i < e.k; i++ {
 		stream = append(stream, byte(i))
@@ -52,7 +59,7 @@ func vfStepSetup(P int, symbolicLimit bool) *vfStepEnv {
 	stream = append(stream, e.ext...)
 	stream = append(stream, e.rest...)
 	e.tc = vfNewConn(stream)
-	if vfChoose(2) == 1 {
+	if chunkOne {
 		e.tc.chunkMode = vfChunkOne
 	}
 	br := bufio.NewReaderSize(e.tc, R)
@@ -162,40 +169,73 @@ func vfCheckCloseSent(tc *vfConn, isServer bool, status int, idp string) {
 	vfAssert(int(f.payload[0])<<8|int(f.payload[1]) == status, idp+"-close-status")
 }
 
-// vfH_read_step_data: header stage for every possible first two bytes and
-// extended length; data / continuation frames and all header violations.
+// vfStepCall drives one step through the public read API. In the idle state
+// it calls NextReader; inside a message it calls Read on the message's reader
+// with a one-byte buffer.
+func (e *vfStepEnv) call(inMsg bool) (ft int, n int, got byte, err error) {
+	c := e.c
+	if !inMsg {
+		t, r, err := c.NextReader()
+		if err == nil && r == nil {
+			vfAssert(false, "nextreader-returns-reader-or-error")
+		}
+		return t, 0, 0, err
+	}
+	var buf [1]byte
+	n, err = c.reader.Read(buf[:])
+	return noFrame, n, buf[0], err
+}
+
+// vfH_read_step_data: one step of the reader, through NextReader (idle) or
+// the message reader's Read (inside a fragmented message), for every possible
+// first two header bytes and extended length: data / continuation frames and
+// all header violations (C03 header part, C04, C06 arithmetic, C07, C15 RSV1).
 func vfH_read_step_data() {
-	e := vfStepSetup(4, true)
+	tier := vfParam("tier", 0)
+	e := vfStepSetup(6, true, tier)
 	c := e.c
 	vfAllocBound(600)
 	op := e.opcode()
-	// control frames with a legal header are covered by vfH_read_step_ctl
+	// control frames with a legal fin/length header are covered by vfH_read_step_ctl
 	vfAssume(!vfAnd(vfIsCtl(op), vfAnd(e.fin(), e.len7() <= 125)))
-	inMsg := !e.inFinal
+	inMsg := vfChoose(2) == 1
+	if inMsg {
+		// inside a fragmented message whose previous frame is fully consumed
+		c.readFinal = false
+		c.messageReader = &messageReader{c}
+		c.reader = c.messageReader
+		c.readRemaining = 0
+	} else {
+		c.readFinal = true
+		e.inLength = 0 // NextReader starts a new message
+	}
 	viol := e.specHeaderViolation(inMsg)
 	dc := e.specHeaderDontcare()
 	L := e.claimed()
 	top := L>>63 != 0
+	if inMsg {
+		vfAssume(!vfAnd(op == 0, L == 0)) // empty continuation: covered end to end
+	}
 	pos0 := e.tc.rpos - c.br.Buffered()
+	mr := c.messageReader
 
-	ft, err := c.advanceFrame()
+	ft, n, got, err := e.call(inMsg)
 
 	consumed := e.tc.rpos - c.br.Buffered() - pos0
 	vfAssert(len(e.pings)+len(e.pongs)+len(e.closes) == 0, "step-no-handler-for-nonctl")
 	if err != nil {
-		vfAssert(ft == noFrame, "step-error-returns-noframe")
+		vfAssert(ft == noFrame && n == 0, "step-error-delivers-nothing")
 	}
 	// --- C04: violations are refused, with a 1002 close ---
 	vfAssert(vfImplies(vfAnd(viol, !dc), err != nil), "c04-violation-refused")
 	if err != nil && err != ErrReadLimit {
-		// the only errors possible here are protocol errors: the stream holds
-		// a complete header, so no transport error can occur
+		// the stream holds a complete header and payload: only protocol errors are possible
 		vfAssert(vfOr(viol, dc), "c04-no-spurious-protocol-error")
 		vfCheckCloseSent(e.tc, e.isServer, 1002, "c04")
 		vfAssert(consumed == 2, "c04-refused-at-the-header")
 		vfReach("step-protocol-error")
 	}
-	// --- C06: limit arithmetic on accepted headers ---
+	// --- C06: limit arithmetic ---
 	if err == ErrReadLimit {
 		vfAssert(!vfAnd(viol, !dc), "c04-violation-wins-over-limit")
 		over := vfOr(top, L > uint64(math.MaxInt64-e.inLength))
@@ -205,36 +245,45 @@ func vfH_read_step_data() {
 		if e.tc.nWrites() > 0 {
 			vfCheckCloseSent(e.tc, e.isServer, 1009, "c06")
 		}
-		// the 1009 close is required when the running sum crosses the limit
 		vfAssert(vfImplies(crossing, e.tc.nWrites() == 1), "c06-1009-sent-on-crossing")
 		vfReach("step-limit-error")
 	}
 	if err == nil {
 		vfAssert(vfOr(!viol, dc), "c04-violation-refused")
-		vfAssert(ft == op, "step-frame-type")
-		vfAssert(vfOr(op == 0, vfIsData(op)), "step-accepted-is-data")
 		vfAssert(!top, "c06-top-bit-length-refused")
 		vfAssert(L <= uint64(math.MaxInt64-e.inLength), "c06-overflowing-sum-refused")
 		vfAssert(vfImplies(e.limit > 0, e.inLength+int64(L) <= e.limit), "c06-over-limit-refused")
 		// inductive half: the invariant holds again, state advanced per the RFC
 		vfAssert(c.readFinal == e.fin(), "step-final-flag-tracks-fin")
-		vfAssert(c.readRemaining == int64(L), "step-remaining-is-claimed-length")
 		vfAssert(c.readLength == e.inLength+int64(L), "c06-running-sum-exact")
-		vfAssert(c.readDecompress == vfAnd(e.rsv1(), e.pmce), "c15-rsv1-accepted-iff-negotiated")
-		vfAssert(consumed == e.headerLen(), "step-consumed-header-only")
 		vfAssert(e.tc.nWrites() == 0, "step-nothing-written-on-accept")
-		if e.isServer {
-			for i := 0; i < 4; i++ {
-				vfAssert(c.readMaskKey[i] == vfMaskKeyAt(e, i), "step-mask-key-taken-from-frame")
+		if inMsg {
+			vfAssert(op == 0, "step-accepted-is-continuation")
+			vfAssert(n == 1, "step-one-byte-delivered")
+			vfAssert(c.readRemaining == int64(L)-1, "step-remaining-is-claimed-length")
+			vfAssert(consumed == e.headerLen()+1, "step-consumed-header-and-one-byte")
+			want := vfPayloadAt(e, 0)
+			if e.isServer {
+				want ^= vfMaskKeyAt(e, 0)
 			}
-			vfAssert(c.readMaskPos == 0, "step-mask-pos-reset")
+			vfAssert(got == want, "step-payload-byte-unmasked-with-frame-key")
+		} else {
+			vfAssert(ft == op, "step-frame-type")
+			vfAssert(vfIsData(op), "step-accepted-is-data")
+			vfAssert(c.readRemaining == int64(L), "step-remaining-is-claimed-length")
+			vfAssert(consumed == e.headerLen(), "step-consumed-header-only")
+			vfAssert(c.readDecompress == vfAnd(e.rsv1(), e.pmce), "c15-rsv1-accepted-iff-negotiated")
+			if e.isServer {
+				for i := 0; i < 4; i++ {
+					vfAssert(c.readMaskKey[i] == vfMaskKeyAt(e, i), "step-mask-key-taken-from-frame")
+				}
+				vfAssert(c.readMaskPos == 0, "step-mask-pos-reset")
+			}
 		}
 		vfReach("step-accepted")
 	}
-	// fail-stop: once NextReader has seen the error it is returned forever and
-	// nothing more is consumed or written
+	// fail-stop: the error is returned forever, nothing more is consumed or written
 	if err != nil {
-		c.readErr = err
 		nw := e.tc.nWrites()
 		p1 := e.tc.rpos - c.br.Buffered()
 		_, r2, err2 := c.NextReader()
@@ -243,7 +292,37 @@ func vfH_read_step_data() {
 		vfAssert(r2 == nil && r3 == nil, "c04-nothing-delivered-after-error")
 		vfAssert(e.tc.nWrites() == nw, "c04-nothing-written-after-error")
 		vfAssert(e.tc.rpos-c.br.Buffered() == p1, "c04-nothing-consumed-after-error")
+		if inMsg {
+			var b1 [1]byte
+			n4, err4 := mr.Read(b1[:])
+			vfAssert(n4 == 0 && err4 != nil, "c04-open-reader-fails-too")
+		}
 	}
+}
+
+// vfPayloadAt: the i-th payload byte on the wire (position depends on the
+// length form and masking); needs 4+i < len(rest) for the 64-bit form.
+func vfPayloadAt(e *vfStepEnv, i int) byte {
+	// bytes after the 2-byte header: ext[0..7] then rest[...]
+	at := func(j int) byte {
+		if j < 8 {
+			return e.ext[j]
+		}
+		return e.rest[j-8]
+	}
+	l7 := e.len7()
+	m := e.masked()
+	// offset = extlen + (masked ? 4 : 0) + i
+	var cands [6]byte
+	cands[0] = at(0 + i)     // 7-bit, unmasked
+	cands[1] = at(4 + i)     // 7-bit, masked
+	cands[2] = at(2 + i)     // 16-bit, unmasked
+	cands[3] = at(6 + i)     // 16-bit, masked
+	cands[4] = at(8 + i)     // 64-bit, unmasked
+	cands[5] = at(12 + i)    // 64-bit, masked
+	u := vfIte(l7 == 127, int(cands[4]), vfIte(l7 == 126, int(cands[2]), int(cands[0])))
+	k := vfIte(l7 == 127, int(cands[5]), vfIte(l7 == 126, int(cands[3]), int(cands[1])))
+	return byte(vfIte(m, k, u))
 }
 
 // vfMaskKeyAt: the i-th key byte of the frame on the wire (position depends
@@ -311,7 +390,17 @@ func vfH_read_step_ctl() {
 		}
 		stream = append(stream, b)
 	}
-	stream = append(stream, 0x55, 0x55)
+	// a valid empty final frame follows, so that the read call can complete
+	inMsg := vfChoose(2) == 1
+	fb0 := byte(0x81)
+	if inMsg {
+		fb0 = 0x80
+	}
+	if isServer {
+		stream = append(stream, fb0, 0x80, 1, 2, 3, 4)
+	} else {
+		stream = append(stream, fb0, 0x00)
+	}
 	tc := vfNewConn(stream)
 	if chunkOne {
 		tc.chunkMode = vfChunkOne
@@ -322,9 +411,14 @@ func vfH_read_step_ctl() {
 		br.Discard(k)
 	}
 	c := newConn(tc, isServer, 0, 16, nil, br, nil)
-	c.readFinal = vfBool()
 	c.readMaskPos = int(vfByte() & 3)
 	c.readMaskKey = [4]byte{vfByte(), vfByte(), vfByte(), vfByte()}
+	if inMsg {
+		c.readFinal = false
+		c.messageReader = &messageReader{c}
+		c.reader = c.messageReader
+		c.readLength = 5
+	}
 	var pings, pongs, closes []string
 	var ccodes []int
 	var herr error
@@ -346,10 +440,25 @@ func vfH_read_step_ctl() {
 	hdrViol := vfOr(rsvBad, maskBad)
 	_ = pmce
 
-	ft, err := c.advanceFrame()
-
-	if err != nil {
-		vfAssert(ft == noFrame, "step-error-returns-noframe")
+	// drive the step through the public API
+	var ft int
+	var err error
+	cleanEnd := false // the call completed normally on the follow-up frame
+	if inMsg {
+		var b1 [1]byte
+		var n int
+		n, err = c.reader.Read(b1[:])
+		vfAssert(n == 0, "ctl-no-data-from-control-frame")
+		if err == io.EOF {
+			cleanEnd, err = true, nil
+		}
+	} else {
+		var r io.Reader
+		ft, r, err = c.NextReader()
+		if err == nil {
+			vfAssert(ft == TextMessage && r != nil, "ctl-next-message-follows")
+			cleanEnd = true
+		}
 	}
 	vfAssert(vfImplies(hdrViol, err != nil), "c04-violation-refused")
 	nh := len(pings) + len(pongs) + len(closes)
@@ -384,11 +493,9 @@ func vfH_read_step_ctl() {
 				vfAssert(len(pings) == 1 && nh == 1, "c08-ping-handler-once")
 				vfAssert(vfAllEq([]byte(pings[0]), payload), "c08-ping-payload-exact")
 				vfAssert(err == herr, "c08-handler-error-returned")
-				if herr == nil {
-					vfAssert(ft == 9, "step-frame-type")
-				}
+				vfAssert(cleanEnd == (herr == nil), "c08-read-continues-after-ping")
 			} else {
-				vfAssert(err == nil, "c08-ping-accepted")
+				vfAssert(err == nil && cleanEnd, "c08-ping-accepted")
 				// default handler: one pong with the identical payload
 				w := tc.wire()
 				vfAssert(tc.nWrites() == 1, "c08-one-pong")
@@ -404,8 +511,9 @@ func vfH_read_step_ctl() {
 				vfAssert(len(pongs) == 1 && nh == 1, "c08-pong-handler-once")
 				vfAssert(vfAllEq([]byte(pongs[0]), payload), "c08-pong-payload-exact")
 				vfAssert(err == herr, "c08-handler-error-returned")
+				vfAssert(cleanEnd == (herr == nil), "c08-read-continues-after-pong")
 			} else {
-				vfAssert(err == nil, "c08-pong-accepted")
+				vfAssert(err == nil && cleanEnd, "c08-pong-accepted")
 				vfAssert(tc.nWrites() == 0, "c08-pong-not-answered")
 			}
 			vfReach("ctl-pong")
@@ -455,7 +563,6 @@ func vfH_read_step_ctl() {
 		}
 	}
 	if err != nil {
-		c.readErr = err
 		nw := tc.nWrites()
 		_, r2, err2 := c.NextReader()
 		_, r3, err3 := c.NextReader()
